@@ -81,6 +81,27 @@ def gap_count_use(fn: ast.AST, root: ast.BinOp, par: dict, fm) -> "dict | None":
             use = "range()"
         elif isinstance(p, ast.Compare):
             use = "comparison"
+        elif isinstance(p, (ast.Assign, ast.AnnAssign)) and isinstance(p.targets[0] if isinstance(p, ast.Assign) else p.target, ast.Name) and len(astq.assignments(fn, (p.targets[0] if isinstance(p, ast.Assign) else p.target).id)) == 1:
+            # kept in a local: every use of that local must be a count use
+            nm = (p.targets[0] if isinstance(p, ast.Assign) else p.target).id
+            uses = [x for x in ast.walk(fn) if isinstance(x, ast.Name) and x.id == nm and isinstance(x.ctx, ast.Load)]
+            kinds = set()
+            for u in uses:
+                q = par.get(id(u))
+                if isinstance(q, ast.Call) and isinstance(q.func, ast.Name) and q.func.id == "range" and q.args == [u]:
+                    kinds.add("range()")
+                elif isinstance(q, ast.Compare):
+                    kinds.add("comparison")
+                elif isinstance(q, ast.BinOp) and isinstance(q.op, ast.Mult) and any((isinstance(o, ast.Constant) and isinstance(o.value, str)) or (isinstance(o, (ast.List, ast.Tuple)) and all(isinstance(e, ast.Constant) for e in o.elts)) for o in (q.left, q.right)):
+                    kinds.add("repetition")
+                elif isinstance(q, (ast.JoinedStr, ast.FormattedValue)) or (isinstance(q, ast.Call) and norm(q.func).startswith(("logging.", "logger."))):
+                    kinds.add("message")
+                else:
+                    kinds.add("?")
+            if uses and "?" not in kinds:
+                use = f"local `{nm}`: " + ", ".join(sorted(kinds))
+            else:
+                problems.append(f"its value is kept in `{nm}`, which is used other than as a count")
         else:
             problems.append("its value is used other than as a count (range, repetition of a constant sequence, comparison)")
     # consecutive members of one sequence
@@ -103,6 +124,34 @@ def gap_count_use(fn: ast.AST, root: ast.BinOp, par: dict, fm) -> "dict | None":
             ma, mb = astq.match(da[0], "S_[I_]"), astq.match(db[0], "S_[I_ - 1]")
             if ma and mb and norm(ma["S_"]) == norm(mb["S_"]) and norm(ma["I_"]) == norm(mb["I_"]):
                 pair = f"{norm(mb['S_'])}[{norm(mb['I_'])} - 1], {norm(ma['S_'])}[{norm(ma['I_'])}]"
+    if pair is None:
+        # running predecessor: `for a in S: ... b = a` on every way to the next iteration (b is bound nowhere else but to a constant before)
+        for n in astq.walk_no_nested(fn):
+            if isinstance(n, ast.For) and isinstance(n.target, ast.Name) and n.target.id == a_ and not n.orelse:
+                binds = [(s2, v) for s2, v in astq.assignments(fn, b_)]
+                inside = [(s2, v) for s2, v in binds if any(s2 is x for x in ast.walk(n))]
+                outside = [(s2, v) for s2, v in binds if not any(s2 is x for x in ast.walk(n))]
+                if not inside or any(v is None or norm(v) != a_ for s2, v in inside) or any(v is None or not isinstance(v, ast.Constant) for s2, v in outside):
+                    continue
+
+                def ends_with_update(block) -> bool:
+                    """every way out of the block towards the next iteration passes `b = a` as its last action"""
+                    if not block:
+                        return False
+                    last = block[-1]
+                    if isinstance(last, ast.Continue):
+                        return len(block) > 1 and isinstance(block[-2], ast.Assign) and norm(block[-2]) == f"{b_} = {a_}"
+                    return isinstance(last, ast.Assign) and norm(last) == f"{b_} = {a_}"
+
+                ok = ends_with_update(n.body)
+                for x in ast.walk(n):
+                    if isinstance(x, ast.Continue):
+                        blk = next((getattr(y, f) for y in ast.walk(n) for f in ("body", "orelse") if isinstance(getattr(y, f, None), list) and any(z is x for z in getattr(y, f))), None)
+                        ok = ok and blk is not None and ends_with_update(blk)
+                    elif isinstance(x, ast.Break):
+                        pass
+                if ok:
+                    pair = f"the member of {norm(n.iter)} met in the previous iteration, and the current one"
     if pair is None:
         problems.append(f"`{a_}` and `{b_}` are not shown to be consecutive members of one sequence")
     st = fm.stmt_of(root)
